@@ -30,6 +30,7 @@ EDITS = {
  'osc-tau-and-wrapped-rename': [('dasp_signal/src/lib.rs', 'const PI_2: f64 = core::f64::consts::PI * 2.0;', 'const PI_2: f64 = core::f64::consts::TAU;'),
                                 ('dasp_signal/src/lib.rs', 'let phase = self.next;\n        self.next = (self.next + self.step.step()) % rem;\n        phase', 'let current = self.next;\n        let advanced = current + self.step.step();\n        self.next = advanced % rem;\n        current')],
  'osc-comment': [('dasp_signal/src/lib.rs', 'let x = (seed << 13) ^ seed;', 'let x = (seed << 13) ^ seed; /* scramble */')],
+ 'types-eq-as-shift': [('dasp_sample/src/types.rs', 'eq: 8_388_608,', 'eq: 1 << 23,')],
  'sample-table-comment': [('dasp_sample/src/lib.rs', 'impl_sample! {', 'impl_sample! { /* table */', 1)],
 }
 # edits that CHANGE behaviour: the translators must refuse them (or translate them faithfully so that a proof breaks)
@@ -45,6 +46,7 @@ REJECT = {
  'osc-simplex-corner': [('dasp_signal/src/lib.rs', 'let x1 = x0 - 1.0;', 'let x1 = x0 + 1.0;')],
  'osc-simplex-square-once': [('dasp_signal/src/lib.rs', 't1 *= t1;', 't1 *= t0;')],
  'osc-noise-add-for-mul': [('dasp_signal/src/lib.rs', 'x.wrapping_mul(x)\n', 'x.wrapping_add(x)\n')],
+ 'types-eq-plus-one': [('dasp_sample/src/types.rs', 'eq: 8_388_608,', 'eq: 8_388_608 + 1,')],
  'ops-guard-strict': [('dasp_sample/src/ops.rs', 'if x >= 0.0 {\n            f32::from_bits', 'if x > 0.0 {\n            f32::from_bits')],
 }
 def run(cmd, env=None):
@@ -73,7 +75,7 @@ for name, edits in list(EDITS.items()) + list(REJECT.items()):
         m=re.search(r'(\d+) (?:errors|uncovered)', last)
         if rc!=0 or not m or int(m.group(1))!=0: errs.append('%s: %s'%(t,last[:150]))
     if lean and not errs:
-        rc,out=run('cd %s && lake build Dasp.Gen.ConvTable Dasp.Gen.ConvFloatThm Dasp.Props.C11 Dasp.Props.C15 Dasp.Props.C17 2>&1 | grep -E "^error" | head -3'%LEAN)
+        rc,out=run('cd %s && lake build Dasp.Gen.ConvTable Dasp.Gen.ConvFloatThm Dasp.Props.C03 Dasp.Props.C11 Dasp.Props.C15 Dasp.Props.C17 2>&1 | grep -E "^error" | head -3'%LEAN)
         if out.strip(): errs.append('lean: '+out.strip()[:300])
     if name in REJECT:
         print(name, 'OK (refused: %s)' % errs[0][:110] if errs else 'FAIL: a behaviour-changing edit was accepted'); bad += 0 if errs else 1
